@@ -22,9 +22,16 @@ Inductive scenario := Sc | Pp | Other.
 Definition select (s : scenario) (sc_val pp_val : F) : option F :=
   match s with Sc => Some sc_val | Pp => Some pp_val | Other => None end.          (* None: ValueError *)
 
-(* ---------------------------------------------------------------- Fuse.protection_function (:99-108) *)
-(* c : value of the characteristic at i_ka*1000 (only used in the middle branch) *)
+(* ---------------------------------------------------------------- Fuse.protection_function (:99-109) *)
+(* c : value of the characteristic at i_ka*1000 (only used in the middle branch).  After "fix: a fuse does not melt on a NaN
+   switch current" the first test is  np.isnan(i_ka) or i_ka * 1000 < self.i_start_a *)
 Definition fuse (i_start i_stop : Q) (c : Q) (i_ka : F) : res :=
+  let i_a := match i_ka with Some x => Some (qmul x 1000) | None => None end in
+  if (match i_ka with None => true | Some _ => false end) || flt i_a i_start then {| tripped := false; ttime := TInf |}
+  else if fle i_a i_stop then {| tripped := true; ttime := TFin c |}
+  else {| tripped := true; ttime := TFin 0 |}.
+(* before the repair a NaN current fell through to the last branch *)
+Definition fuse_old (i_start i_stop : Q) (c : Q) (i_ka : F) : res :=
   let i_a := match i_ka with Some x => Some (qmul x 1000) | None => None end in
   if flt i_a i_start then {| tripped := false; ttime := TInf |}
   else if fle i_a i_stop then {| tripped := true; ttime := TFin c |}
